@@ -56,6 +56,18 @@ var lcSinks = map[string][]string{
 
 type ctxKey struct{}
 
+var lcZones = []*time.Location{time.UTC, time.FixedZone("east", 5*3600+1800), time.FixedZone("west", -8*3600)}
+
+func lcZoneOf(v any) *time.Location {
+	switch id := v.(type) {
+	case int64:
+		return lcZones[int(id%3+3)%3]
+	case int:
+		return lcZones[(id%3+3)%3]
+	}
+	return time.UTC
+}
+
 type lcEnv struct {
 	r        *hx.Result
 	rng      *rand.Rand
@@ -184,7 +196,8 @@ func (e *lcEnv) installHooks(set []string) {
 			log.TimeNow = func(ctx context.Context) time.Time {
 				atomic.AddInt64(&e.hookCnt[0], 1)
 				e.lastCtx[0] = ctx
-				return e.hookTime
+				// one instant, shown in the zone of the request: what a record shows is its own event's time value
+				return e.hookTime.In(lcZoneOf(ctx.Value(ctxKey{})))
 			}
 		case "str":
 			log.StringFromContext = func(ctx context.Context) string {
@@ -786,7 +799,7 @@ func (e *lcEnv) checkRecords() {
 				if !strings.Contains(line, fmt.Sprintf("id=%d", rc.id)) || strings.HasPrefix(line, "RAW ") {
 					continue
 				}
-				if has("time") && !strings.Contains(line, "[2031-02-03T04:05:06.789]") {
+				if has("time") && !strings.Contains(line, "["+e.hookTime.In(lcZoneOf(rc.id)).Format("2006-01-02T15:04:05.000")+"]") {
 					e.viol("record-time", "step %d: %s: console line does not carry the hook's time: %q", rc.step, rc.entry.name, line)
 				}
 				if has("str") && !strings.Contains(line, fmt.Sprintf("||cs-%d||", rc.id)) {
